@@ -228,4 +228,26 @@ Proof.
       * right; eauto.
       * repeat split; auto; lia.
 Qed.
+Lemma bouter_mono fuel s obj stop n s' obj' stop' n' :
+  bouter fuel s obj stop n = Ok (s', obj', stop', n') -> (n <= n')%nat.
+Proof.
+  revert s obj stop n. induction fuel as [|fuel IH]; intros s obj stop n Hrun; simpl in Hrun.
+  - inversion Hrun; subst. lia.
+  - apply bind_ok in Hrun as (s1 & Hs & Hrun). apply bind_ok in Hrun as (sc & Hc & Hrun).
+    apply bind_ok in Hrun as (o & Ho & Hrun). destruct (elt_tol sc).
+    + inversion Hrun; subst. lia.
+    + apply IH in Hrun. lia.
+Qed.
+
+(* either nothing ran (zero budget) or at least one iteration was performed *)
+Lemma bouter_progress fuel s obj stop n s' obj' stop' n' :
+  bouter fuel s obj stop n = Ok (s', obj', stop', n') -> (fuel = O /\ n' = n /\ stop' = stop) \/ (n < n')%nat.
+Proof.
+  destruct fuel as [|fuel]; intros Hrun; simpl in Hrun.
+  - inversion Hrun; subst. left. auto.
+  - right. apply bind_ok in Hrun as (s1 & Hs & Hrun). apply bind_ok in Hrun as (sc & Hc & Hrun).
+    apply bind_ok in Hrun as (o & Ho & Hrun). destruct (elt_tol sc).
+    + inversion Hrun; subst. lia.
+    + apply bouter_mono in Hrun. lia.
+Qed.
 End Bottom.
